@@ -10,42 +10,42 @@ NOTE = ("Trusted: Coq 8.16.1 kernel; the hand-written Gallina model (tied to /re
         "No axioms: Print Assumptions of every property theorem is recorded in the evidence.")
 
 CLAIMED = {
- "C01": ("No Coq model of CPython yet: the theorem file holds only totality of both models (partial). Decided on every run by loading every encoder output (gate matrix + random trees x 6 protocols x StrictUnicode) with CPython's own pickle._Unpickler (symbolic classes / persistent ids, py2 str kept distinct) and comparing structurally with the documented Python value computed independently; encoder model = implementation on the bytes. Two known findings (non-UTF-8 text emitted as unicode; protocol-0 PERSID with non-ASCII id).",
-         "executable Coq encoder model tied to the code + CPython itself as the reference (theorem pending)", "5 (C01)"),
+ "C01": ("Theorem C01_encode_loads_partial (Props/C01.v): for every Go value in the domain of PyVal.pyval_of (the documented type table), protocols 0..5, both StrictUnicode settings, Encode succeeds, its bytes are the assembly of one instruction program, and the CPython machine PyVM.pyload loads that program to exactly pyval_of c v (numbers, text, byte payloads, dict assignment under Python equality, nesting) - structural induction over the value, one lemma per encoder function. Partial: the domain leaves out protocol-0 text forms of strings/floats and payloads >= 2^31/2^32 bytes (decided by the run only). Both specifications (PyVM, pyval_of) are compared with CPython 3.11's own unpickler on every run; outside the domain every encoder output is loaded by CPython and compared with the documented value computed independently. Two known findings.",
+         "proof (induction over the value universe against a Coq model of CPython's unpickler) + that model and the type table compared with CPython itself on every run", "5 (C01)"),
  "C02": ("No Coq model of CPython's picklers (by design) and no simulation theorem yet (partial). Decided on every run: Python objects over the documented types incl. every LONG1 length and DAG sharing, pickled by the C pickler, the pure-Python pickler and pickletools.optimize at protocols 0..5, decoded in 4 configs and compared structurally with CPython's own reading; decoder model = implementation. Known finding stale_list_view (shared non-empty list).",
          "executable Coq decoder model tied to the code + CPython picklers/unpickler as the reference (theorem pending)", "5 (C02)"),
- "C05": ("Corollary of C16 (typed results) and C03 (round trip), both pending: theorem file holds totality only (partial). Decided on every run by the fuzz invariant itself on the C04 input stream: every successful result re-encoded at 6 protocols and decoded again, on the implementation and on both models.",
-         "executable Coq models of decoder and encoder composed, tied to the code by differential runs (theorem pending)", "5 (C05)"),
+ "C05": ("Theorem C05_redecode_partial (Props/C05.v): whatever Decode returned (any input, any configuration, any well-typed prior state), if the result has no heap objects (maps, Dicts) or PersistentLoad objects and protocol c has a covered opcode form for each leaf (fits_proto), then Encode of it succeeds and Decode of that output gives the same content; uses C16 typing to discharge int64 / ByteString side conditions. Partial: results with maps/Dicts and protocol-0 text leaves are decided by the run only: the fuzz invariant itself on the C04 input stream (re-encode at 6 protocols, decode again) on implementation and both models; the model chain decode->reify->encode is compared byte for byte with the implementation's re-encoding.",
+         "proof (composition of the C03 round trip with the C16 typing invariant) + decode/encode/decode chain on implementation and models", "5 (C05)"),
  "C06": ("Simulation theorem GoVM ~ PyVM not yet proved, PyVM not yet modelled in Coq (partial). Decided on every run against CPython's pickle._Unpickler read per decoder mode: typed-grammar programs with every opcode variant, exhaustive short programs, a sharing matrix (second reference by memo in every key width or DUP, taken while empty / half / full, every fill opcode, sizes 0..20), x 4 configs; decoder model = implementation. Known finding stale_list_view.",
          "executable Coq decoder model tied to the code + CPython unpickler as the reference (simulation theorem pending)", "5 (C06)"),
  "C09": ("Restriction of C06 to dict opcodes + C07/C08 theorems about the Dict; the composition is not yet a theorem (partial). Decided on every run: dict programs over a colliding key alphabet in every opcode form, nested and re-reached through the memo, x 4 configs, against the dict CPython builds (PyDict: entry count, key classes, final value per class; default: Go key identity from CPython's assignment trace, error iff a key cannot be a Go map key).",
          "Coq Dict theorems (C07/C08) + executable decoder model + CPython as the reference (composition pending)", "5 (C09)"),
  "C14": ("L1 (bufio-level) reader model and the refinement theorem are not yet written (partial; totality only). Decided on every run metamorphically on the implementation: every input x schedules {1-byte, every single split point, zero-length reads, data+EOF, 4095/4096/4097 chunks, random multi-way splits} must give the same (value, error) sequence as a single Read; the stream-level decoder model = implementation on the single-Read run.",
          "metamorphic chunking sweep on the implementation + stream-level decoder model (L1 refinement theorem pending)", "5 (C14)"),
- "C18": ("Hook-log theorems not yet stated (partial; totality only). Decided on every run: Decode - PersistentLoad call log compared with CPython's persistent_load sequence and with the model under hook behaviours keep / replace / fail / partial; Encode - number of PersistentRef consultations and hits compared with the traversal for pointers in every position (incl. **T chains), output decoded again with the inverse hook.",
-         "executable Coq models with the hooks as parameters + call-log comparison against CPython and the traversal (theorems pending)", "5 (C18)"),
+ "C18": ("Theorems (Props/C18.v): Decode calls PersistentLoad exactly once per PERSID/BINPERSID executed, in stream order, with the Ref built from the popped id, and no other opcode calls it (log theorems over every handler); what the hook returns (object / nil / error) determines the pushed value or the error exactly as documented; Encode consults PersistentRef only for pointers to structs and emits the returned Ref's encoding instead of the pointee. Tie: call logs compared with CPython's persistent_load sequence and with the model under hook behaviours keep / replace / fail / partial; PersistentRef consultation counts for pointers in every position.",
+         "proof (hook-call log as ghost state of the decoder model, per-handler lemmas) + call-log comparison against CPython and the traversal", "5 (C18)"),
  "C20": ("PARTIAL by nature. Theorem C20_no_mutable_package_state over Gen/Globals.v, regenerated from the source on every run: every package-level variable is an errors.New value never assigned / address-taken. Interleavings are not modelled; the dynamic part runs the harness under the Go race detector (N up to 64 goroutines, own Encoders/Decoders or one shared decoded value) and compares results with the sequential ones.",
          "proof over facts regenerated from the source (no mutable package state) + race-detector runs", "5 (C20)"),
- "C11": ("Stream theorem not yet proved (partial; Props/C11.v holds only totality). Decided on every run by: streams of 1..8 self-contained pickles (mixed protocols, hand-assembled programs leaving operands / marks / protocol number / buffer contents behind, pickles failing at their last byte, all ordered pairs of those) x 4 configs, each call compared with the same pickle decoded alone and with the decoder model threaded through the stream; earlier results re-dumped after the last call.",
-         "executable decoder model threaded through streams + metamorphic comparison with stand-alone decoding (theorem pending)", "5 (C11)"),
- "C16": ("Typing invariant not yet proved (partial; Props/C16.v holds only totality). Decided on every run by walking every successful result and every Ref handed to PersistentLoad against the mode's type whitelist, over the C04 stream + MARK under every consuming opcode in every operand position + exhaustive opcode x small-stack sweep, x 4 configs x 4 PersistentLoad behaviours; full observations compared with the decoder model.",
-         "executable decoder model + type-whitelist walk of implementation results (theorem pending)", "5 (C16)"),
- "C03": ("Round-trip theorem over all values: NOT yet proved (Props/C03.v holds only the encoder-outcome theorem and computed examples at all six protocols) - partial. The property is decided on every run by: encoder model = implementation on the bytes (order of dict entries normalised with pickletools), decoder model = implementation on those bytes, and the direct oracle Decode(Encode(v)) = documented normal form computed independently in Python, over canonical values and their non-canonical relatives x 6 protocols x StrictUnicode x PyDict, plus a before/after dump for 'Encode never modifies its argument'.",
-         "executable Coq models of encoder and decoder tied to the code by differential runs + independent normal-form oracle (theorem pending)", "5 (C03)"),
- "C12": ("Theorems (Props/C12.v): a protocol outside 0..5 is rejected before any Write, for every value and Writer; a successful output is [PROTO p iff p>=2] body STOP. That body uses only opcodes of protocol <= p with a balanced stack is NOT yet a theorem (partial): it is decided on every run by scanning implementation and model output with CPython's pickletools (independent opcode table: introducing protocol, argument layout, stack effect; dis) for the gate matrix + random values x protocols -1..7 x StrictUnicode, and by loading protocol<=2 output under Python 2.7.",
-         "proof of framing / rejection on the encoder model + independent opcode-table scan (pickletools) + Python 2 load", "5 (C12)"),
+ "C11": ("Theorems (Props/C11.v): framing (Decode consumes exactly its pickle: decode on p ++ rest leaves rest, for every accepted p), no carry-over (the result does not depend on the stack or protocol number a previous call left behind), and the stream theorem (decode_all over p1 ++ ... ++ pn = the chain of single decodes threaded through the memo/heap state). Tie: streams of 1..8 self-contained pickles (mixed protocols, hand-assembled programs leaving operands / marks / protocol / buffered bytes behind, pickles failing at their last byte) x 4 configs, each call compared with the pickle decoded alone and with the model threaded through the stream.",
+         "proof (prefix-extension lemma of the reader monad lifted through the loop, induction over the stream) + stream differential on the implementation", "5 (C11)"),
+ "C16": ("Theorem C16 (Props/C16.v): typing invariant - from any well-typed decoder state, for any bytes and configuration (PersistentLoad returning documented values or opaque objects), a successful result, the memo, the heap and every Ref handed to PersistentLoad consist only of the types the mode documents (int64 ints, ByteString only under StrictUnicode, map vs Dict by PyDict, no mark, no uint/complex); proved per handler and lifted through the loop and through streams. Tie: walk of every successful implementation result and hook argument against the whitelist over the C04 stream + MARK under every consuming opcode + exhaustive opcode x small-stack sweep x 4 configs x 4 hook behaviours.",
+         "proof (state invariant preserved by every opcode handler, induction on fuel and over streams) + whitelist walk of implementation results", "5 (C16)"),
+ "C03": ("Theorem C03_round_trip_partial (Props/C03.v): for every value with Norm.norm c v = Some t (None, bool, every int/uint width, big.Int, floats, all string kinds, Bytes, []byte, Tuple, lists/typed slices/arrays, Class, Call, Ref, pointers, nil, nested to any depth; protocol >= 1 for text/float leaves), every protocol 0..5, StrictUnicode, PyDict, prior decoder state and trailing bytes: Encode succeeds and Decode of its output returns a value whose content is t (identity for canonical values, ByteString as string with StrictUnicode off, documented normal form otherwise), trailing bytes untouched. Proof: fuel-free exec relation, one lemma per opcode form (decimal / two's-complement / UTF-8 latin-1 lemmas), induction over the value. Partial: maps, Dicts, structs and protocol-0 text leaves are outside norm and decided by the run. norm's prediction is compared with the implementation's Decode(Encode(v)) on every run, plus the independent Python normal-form oracle and before/after dumps.",
+         "proof (per-opcode lemmas + structural induction: decoder model on encoder model output) + prediction compared with the implementation + independent normal-form oracle", "5 (C03)"),
+ "C12": ("Theorems (Props/C12.v): a protocol outside 0..5 is rejected before any Write; C12_conformance: whenever Encode succeeds its bytes are exactly asm_all (program c v) where program = [PROTO p iff p >= 2] ++ body ++ [STOP], body contains no PROTO/STOP, every instruction's opcode was introduced in a protocol <= p (Insn.iproto) and the program respects the stack discipline over {mark, object} ending with one object (Insn.sd_run) - three structural inductions over the value. The instruction table (bytes, introducing protocol, stack effect) is compared with CPython's pickletools.opcodes on the implementation's own output on every run; additionally pickletools.dis and a Python 2.7 load for protocol <= 2.",
+         "proof (disassembly of the encoder model's output into an instruction program + protocol bound + stack discipline, by induction) + instruction table checked against pickletools + Python 2 load", "5 (C12)"),
  "C13": ("Theorem C13_write_failure (Props/C13.v): for every configuration, value and k, if the k-th Write fails Encode returns the Writer's error and the Writes made are exactly the first k+1 of the unfailed run - a generic lemma of the writer monad the encoder model is written in. Tie: a Writer failing exactly at call k, for every k, over gate-matrix and random values x 6 protocols, plus buffering Writers.",
          "proof (generic writer-monad lemma by induction) + exhaustive write-index sweep on the implementation", "5 (C13)"),
  "C15": ("Theorem C15_no_panic (Props/C15.v): for every value of the reflect-level universe, every configuration and Writer behaviour, the encoder model never panics (induction over the value, every helper). Tie: values of types built with reflect.StructOf/ArrayOf/SliceOf/MapOf/pointers, a zoo of declared types with unexported/embedded/tagged fields, byte arrays by value, typed nil pointers, unsupported kinds, depth <= 4, x 6 protocols; outcome class compared with the model; TypeError kind checked.",
          "proof (structural induction over the value universe) + reflect-generated type zoo differential", "5 (C15)"),
- "C19": ("Theorem C19_helpers_by_type (Props/C19.v): AsString / AsBytes / AsInt64 accept exactly the documented result types and return the payload unchanged. That every integer opcode form decodes to a value with the right AsInt64 (decodeLong = two's complement, decimal parsing) is not yet a theorem (partial): decided by the run - exhaustive -2^12..2^12 (thorough 2^16), lattice to 2^70, LONG1 of every length 0..255, x every opcode form; payloads x 9 opcodes x StrictUnicode; two representations of one integer as Dict keys.",
-         "proof on the typeconv model + exhaustive small-integer / every-LONG1-length sweep against model and expectation", "5 (C19)"),
+ "C19": ("Theorems (Props/C19.v, 8): AsString / AsBytes / AsInt64 accept exactly the documented types and return the payload unchanged; decodeLong = two's complement for every byte string; every integer opcode form (INT, LONG text, BININT1/2, BININT, LONG1) decodes to the integer it denotes (decimal print/parse round trip for every Z, ParseInt overflow handling). Tie: exhaustive -2^12..2^12 (thorough 2^16), lattice to 2^70, LONG1 of every length 0..255, x every opcode form; payloads x 9 opcodes x StrictUnicode.",
+         "proof (arithmetic lemmas on decimal and two's-complement codecs, per-opcode lemmas) + exhaustive small-integer / every-LONG1-length sweep", "5 (C19)"),
  "C07": ("Theorems (Props/C07.v), for keys whose numbers are integers of any Go integer type / *big.Int / bool, the three string kinds, Tuples, None, Class, Call, Ref: equal() = Python's == ; equal keys feed identical bytes to maphash (any seed, any hash function); a Dict holding a finds it under b iff a == b for every slot order. Keys with float/complex parts: decided by the correspondence run only (partial). Tie: ~6*10^4 ordered pairs of a boundary lattice against the model AND against CPython's own ==, plus black-box lookups in up to 4096 freshly seeded Dicts.",
          "proof (structural induction over keys, exact integer arithmetic) + lattice differential against model and CPython + seeded black-box lookups", "5 (C07)"),
  "C08": ("Theorems (Props/C08.v), integer-fragment keys, every slot order: after ANY history the Dict model's entry list equals the reference dictionary's (Set/Del remove every equal entry, Len/Iter), no two stored keys equal, Get = reference Get when at most one stored key equals the query and otherwise the value of some equal entry; the full 'most recent' statement is refuted by a vm_compute witness (known finding nontransitive_multi_match). Tie: exhaustive histories over the 10-key colliding alphabet (length <=3 quick, <=4 thorough) and long random histories against extracted RefDict and Dict model.",
          "proof (refinement to a reference dictionary by induction over histories) + exhaustive short histories + long random histories", "5 (C08)"),
- "C17": ("Theorem C17_api (Props/C17.v): for every Dict state, slot order and key the hash rejects, Get/Set/Del panic before reading or writing any entry (also on the empty Dict). Decode half: decided by generated programs (unhashable object at depth 0..3 in Tuple/Call/Ref x DICT/SETITEM/SETITEMS x 4 configs) on implementation and model; the decoder-side theorem is part of C04 (no panic) - an explicit 'returns an error' theorem for the three handlers is not yet stated (partial).",
-         "proof on the Dict model + generated unhashable-key programs and direct API calls with before/after comparison", "5 (C17)"),
+ "C17": ("Theorems (Props/C17.v): for every Dict state, slot order and key the hash rejects, Get/Set/Del panic before reading or writing any entry (also on the empty Dict); decoder half: SETITEM / SETITEMS / DICT with a key the mode cannot hold return an error (never panic, never drop) in the decoder model, for every state. Tie: generated programs (unhashable object at depth 0..3 in Tuple/Call/Ref x DICT/SETITEM/SETITEMS x 4 configs) and direct API calls with before/after comparison.",
+         "proof on the Dict and decoder models + generated unhashable-key programs and direct API calls", "5 (C17)"),
  "C04": ("Theorems (Props/C04.v): for every byte string, configuration and decoder state the model of Decode never panics, never exhausts fuel length+1 (each loop iteration consumes a byte), reports every undispatched opcode byte as OpcodeError{byte,index} and PROTO>5 as ErrInvalidPickleVersion. Tie: outcome classes of model and implementation compared on corpus, grammar programs, mutations, opcode soup, length bombs, all 256 bytes x4 configs; direct oracle on the implementation: recover, timeout, TotalAlloc envelope. The memory clause is partial: it is measured on the implementation (envelope 1 KiB/byte + 2 MiB), not proved.",
          "proof over the decoder model (induction on fuel / free-monad structure) + differential correspondence + allocation metering", "5 (C04)"),
  "C10": ("Theorem C10_truncation (Props/C10.v): for every config, state, accepted pickle p and proper prefix q, the model's Decode on q yields io.EOF (q empty) or io.ErrUnexpectedEOF, no value, all of q consumed - by a generic prefix-monotonicity lemma of the reader monad lifted through the instruction loop. Tie and direct oracle: every cut of generated/valid corpus pickles x4 configs on the implementation, classes compared with the model.",
